@@ -227,6 +227,10 @@ def run(tier, seed):
                                 # a pipe: the two sequential readers need neither seek nor tell
                                 with open(name, "rb") as f:
                                     got = util.read_signal(io.BufferedReader(NoSeek(f.read())), **kw2)
+                            elif (k + len(shape)) % 3 == 0:
+                                # a stream whose `name` is a file descriptor (os.fdopen, tempfile.TemporaryFile, subprocess pipes)
+                                with os.fdopen(os.open(name, os.O_RDONLY), "rb") as f:
+                                    got = util.read_signal(f, **kw2)
                             else:
                                 with open(name, "rb") as f:
                                     got = util.read_signal(f, **kw2)
